@@ -68,6 +68,8 @@ class Check:
             self.prog = ir.load_program(self.tier)
             for u, why in sorted(getattr(self.prog, "skipped_units", {}).items()):
                 self.assume("translation unit %s is %s" % (u, why))
+        from . import flow as _flow
+        _flow.PROG = self.prog
         return self.prog
 
     def rule(self, rid, title, decides=""):
